@@ -17,7 +17,7 @@ BIND_DEVS = {"calleeLate": "F-CALL-UNRESOLVED-ORDER"}     # deviation switch of 
 
 def bind_family(chk, wd, binp, rnd, thorough):
     """Bind.tla as oracle: bindings, closures, scopes, TDZ, per-iteration environments x 14 compiler-decision rewrites."""
-    n = 12000 if thorough else 1200
+    n = 12000 if thorough else 800
     progs = [bindgen.random_program(i, rnd, 2 + i % 3) for i in range(n)]
     with phase(chk, "bind-oracle"):
         want = oracle.bind_eval(progs, wd, "b")
